@@ -86,6 +86,15 @@ one-level summaries computed to a fixpoint over all units) plus Engine I (sa/int
   R13.12 (refined)             a helper of the evaluators that leaves the kind dispatch to its callers is judged under the kinds its callers hand it (eval_flonum_binary).
   R13.7 (refined)              a wait whose result is kept (`ret = waitpid(pid, &status, 0)`) succeeded with the awaited pid when it delivered a status.
 
+  R13.27 initializer separators the separator protocol of the initializer-list walk (C05 R05.14's engine) with member lists free: unnamed bit-fields (no part in initialization),
+                               named bit-fields, anonymous members -- `,` is demanded only behind an element, so no valid initializer is diagnosed (sa/lib_c13sep.py).
+  R13.28 probe loops           the unreachable() that closes the probe loops of hashmap.c is dead: `used` counts every non-NULL slot (C17 R17.2-R17.5 re-issued) and nothing else
+                               writes the accounting fields.
+  R13.29 phase globals         a static pointer global that the code resets with a literal NULL is dereferenced only where a non-null state is established on every way the
+                               function is reached (structured must-analysis + greatest fixpoint over the unit's call graph), judged per phase: before the first store, after a
+                               reset by a callee (sa/lib_c13glob.py).
+  R13.30 position travels      `if (!X->F) error_tok(X->P, ..)`: pairs (F, P) derived; a function that stores F into an object field by field stores P too.
+
 Not implemented (stated, not claimed): error_at's pointer lies inside current_file->contents (R13.6, second clause);
 the two asserts of hashmap.c:rehash (R13.4, listed).
 """
@@ -362,6 +371,9 @@ def run(P, rep, tier):
     r1324(P, rep)
     r1325(P, W, rep)
     r1326(W, engs, rep)
+    r1327(P, rep)
+    r1328(P, W, rep)
+    r1329(P, W, rep)
     for rule, fam in (('R13.13', LD.r1313_function), ('R13.14', LD.r1314_declspec), ('R13.15', LD.r1315_typing), ('R13.16', LD.r1316_constexpr)):
         try:
             fam(P, rep, rule)
@@ -1374,6 +1386,105 @@ def r1324(P, rep):
            '(and a line that need not exist in that file), so the input is not answered with a located diagnostic: ')
     n = reissue(rep, 'R13.24', sub, why, keep=lambda o: o['key'].split(':', 1)[0] == 'R18.5')
     rep.extra['R13.24'] = {'obligations_of_C18_reissued': n}
+
+
+def r1327(P, rep):
+    """initializer lists of valid programs reach no diagnostic for any member list (unnamed bit-fields, named bit-fields, anonymous members): sa/lib_c13sep.py"""
+    from .. import lib_c13sep
+    lib_c13sep.run(P, rep)
+
+
+def r1329(P, W, rep):
+    """R13.29 phase globals (a pointer global the code itself resets to NULL is dereferenced only in an established state, per phase) and R13.30 (the position field of a
+    diagnostic about a missing field value travels with that field): sa/lib_c13glob.py"""
+    from .. import lib_c13glob
+    units = [un for un in ('parse.c', 'tokenize.c', 'preprocess.c', 'codegen.c', 'main.c', 'type.c') if un in P.unit_names]
+    lib_c13glob.run(P, rep, units, skip=set(W.nullable_globals), nullable_rets=set(W.nullable_rets))
+    lib_c13glob.run_pairs(P, rep, [un for un in ('parse.c', 'type.c', 'preprocess.c', 'tokenize.c') if un in P.unit_names])
+
+
+def r1328(P, W, rep):
+    """the probe loops of the hash table end in unreachable() ("internal error"): they leave through a return because a NULL slot exists on every probe sequence, which is
+    the invariant `used` = number of slots that are not NULL (live entries AND tombstones) < capacity.  The premises are C17's obligations (re-issued); what C17 does not
+    state -- nothing outside the functions it interprets writes the accounting fields -- is decided here over all units."""
+    rule = 'R13.28'
+    rep.rule(rule, 'the probe loops of hashmap.c cannot fall into their closing unreachable(): every probe sequence meets a NULL slot because `used` counts every slot that is '
+                   'not NULL, tombstones included (incremented exactly when a NULL slot is claimed, left alone by delete, recomputed only by a rehash that re-inserts the live '
+                   'entries into a fresh table), the load test with a high watermark below 100% precedes every insertion probe and the probe visits distinct slots (obligations of '
+                   'C17 R17.2-R17.5 re-issued); no other function of any unit writes HashMap.used / capacity / buckets', floor=12)
+    from ..report import Report, reissue
+    from ..interp import Unsupported
+    hu = 'hashmap.c'
+    try:
+        u = P.unit(hu)
+    except AnalysisBroken as e:
+        rep.undecided(rule, '%s:unit' % hu, str(e))
+        return
+    # the abort sites this rule is about: functions of the unit with a loop over the buckets that is followed by a call of a noreturn diagnostic
+    sites = []
+    for f, fd in sorted(u.functions.items()):
+        body = u.body(f)
+        if body is None:
+            continue
+        top = [c for c in body.inner]
+        for i, st in enumerate(top):
+            if st.kind in ('ForStmt', 'WhileStmt') and any(m.kind == 'MemberExpr' and m.name == 'buckets' for m in st.walk()) and any(m.kind == 'ReturnStmt' for m in st.walk()):
+                for later in top[i + 1:]:
+                    for c in later.walk():
+                        if c.kind == 'CallExpr' and c.callee() in ('error', 'abort', '__assert_fail'):
+                            sites.append(f)
+    sites = sorted(set(sites))
+    rep.extra[rule] = {'probe_loops_closed_by_an_abort': sites}
+    if not sites:
+        rep.undecided(rule, '%s:probe-loops' % hu, 'no probe loop followed by unreachable() found: the abort sites this rule is about are not recognised')
+        return
+    sub = Report('C17')
+    try:
+        from . import c17
+        for need in ('get_entry', 'get_or_insert_entry', 'rehash', 'match', 'hashmap_put2', 'hashmap_get2', 'hashmap_delete2'):
+            if need not in u.functions:
+                raise AnalysisBroken('anchor function %s vanished from %s' % (need, hu))
+        c17.r171(P, u, sub)
+        c17.r172(P, u, sub)
+        c17.r173(P, u, sub)
+        c17.r175(P, u, sub)
+    except (AnalysisBroken, Unsupported, ImportError, AttributeError) as e:
+        rep.undecided(rule, '%s:table-functions:engine' % hu, 'the table functions cannot be interpreted: %s' % e)
+        return
+    why = ('%s end%s in unreachable(): a probe that meets no NULL slot prints "internal error" and exits on a valid program (find_macro probes the macro table for every '
+           'identifier); a NULL slot is guaranteed only while `used` counts every non-NULL slot and stays below the capacity: ' % (' / '.join(sites), 's' if len(sites) == 1 else ''))
+
+    def keep(o):
+        r = o['key'].split(':', 1)[0]
+        if r in ('R17.3', 'R17.4', 'R17.5'):
+            return True
+        return r == 'R17.2' and ('probe' in o['key'] or 'absent-only-at-null' in o['key'])
+    n = reissue(rep, rule, sub, why, keep=keep)
+    rep.extra[rule]['obligations_of_C17_reissued'] = n
+    # who writes the accounting fields: only the functions interpreted above (insertion, rehash; delete is proved to leave them alone)
+    interpreted = {'get_or_insert_entry', 'rehash', 'hashmap_delete2'}
+    nw = 0
+    for un in W.units:
+        uu = W.units[un]
+        for f, fd in sorted(uu.functions.items()):
+            if un == hu and (f in interpreted or f == 'hashmap_test'):
+                continue
+            for m in fd.walk():
+                tgt = None
+                if m.kind in ('BinaryOperator', 'CompoundAssignOperator') and (m.opcode == '=' or m.kind == 'CompoundAssignOperator') and m.inner:
+                    tgt = m.inner[0].strip()
+                elif m.kind == 'UnaryOperator' and m.opcode in ('++', '--') and m.inner:
+                    tgt = m.inner[0].strip()
+                if tgt is None or tgt.kind != 'MemberExpr' or tgt.name not in ('used', 'capacity', 'buckets') or not tgt.inner:
+                    continue
+                bt = (tgt.inner[0].dtype or tgt.inner[0].type or '')
+                if 'HashMap' not in bt:
+                    continue
+                nw += 1
+                rep.ob(rule, '%s:%s:writes-HashMap.%s' % (un, f, tgt.name), False,
+                       '%s writes HashMap.%s outside the insertion / rehash functions whose accounting is proved: the count of non-NULL slots the load test relies on is no '
+                       'longer the one the probe loops need' % (f, tgt.name), where='%s:%d' % (un, m.line))
+    rep.ob(rule, '%s:accounting-fields-written-only-by-insert-and-rehash' % hu, nw == 0, 'see the writers listed', where='%s:%d' % (hu, u.fn(sites[0]).line))
 
 
 # --------------------------------------------------------------------------------------------
